@@ -65,6 +65,7 @@ pub fn checks() -> Vec<Check> {
             st("c01.s3", c01::s3, (0, 0), 3, "8 prototypes x point counts around 1x/2x/3x the natural packet capacity"),
             st("c01.s4", c01::s4, (0, 0), 3, "hooked packet capacity 1..9 x npoints 0..3c+1 x every catalogue type"),
             st("c01.s6", c01::s6, (0, 0), 3, "extension attribute of every catalogue type at the first/last prototype position x capacity {1,3} x npoints {0,1,4} x one or two registered extensions"),
+            st("c01.s7", c01::s7, (0, 0), 3, "every attribute-group subset (3 coordinate kinds x 2^10 group/flag bits, invalid combinations skipped), 5 points, capacity 2"),
             st("c01.s5", c01::s5, (0, 0), 2, "two hooked-capacity clouds around a pad blob at all 255 residues x prototype pairs"),
         ],
         extra: None,
@@ -83,6 +84,7 @@ pub fn checks() -> Vec<Check> {
             st("c02.s1", c02::s1, (0, 0), 3, "C01-S1 programs (255 residues x 6 prototypes x 3 point counts) judged by the independent validator/decoder"),
             st("c02.s2", c02::s2, (0, 0), 3, "all programs of depth <=3/4 over the 30-op alphabet x 3 finalize modes (plain, identity transformer, transformer appending a foreign element)"),
             st("c02.s4", c02::s4, (0, 0), 3, "C01-S4 programs (hooked capacity x point counts x every catalogue type)"),
+            st("c02.ext", c02::ext, (0, 0), 3, "all sequences of <=3 extension registration attempts over 2 prefixes x 2 URLs (a prefix can be registered once), then a cloud with an extension attribute"),
             st("c02.blobs", c02::blobs, (0, 0), 3, "blob + cylindrical image payload length 0..=1023 x 17 start residues"),
         ],
         extra: None,
@@ -101,6 +103,7 @@ pub fn checks() -> Vec<Check> {
             st("c03.layout", c03::layout, (2, 3), 3, "10 scenes x all layouts with <=2 (quick) / <=3 (thorough) deviations over packets, cuts, index/ignored packets, data/index offsets, section order, gaps {4,1000,1016}, omitted default attributes, XML lexical forms"),
             st("c03.gaps", c03::gaps, (1, 2), 3, "10 scenes x every gap 4..1020 before every section and before the XML (all 255 aligned start residues); thorough: all pairs"),
             st("c03.cuts", c03::cuts, (2, 2), 3, "10 scenes encoded with 2 (thorough 3) data packets per cloud x every byte cut of every record stream, all pairs of cuts, x index/ignored packets"),
+            st("c03.maxpacket", c03::maxpacket, (1, 1), 3, "one 8-bit record, first data packet of 65520/65524/65528 stream bytes (packet length up to 65536, the maximum of the length field) x 3 tail sizes x gaps {4,1000,1016}"),
             st("c03.xml", c03::xml, (3, 4), 3, "10 scenes x all combinations of <=3 (thorough <=4) XML lexical / omitted-attribute deviations"),
         ],
         extra: None,
@@ -193,10 +196,10 @@ pub fn checks() -> Vec<Check> {
     Check {
         id: "C09",
         level: "model_checking",
-        stages: vec![Stage { timeout_s: 30, ..st("c09.sweep", c08::sweep_budget, (0, 0), 3, "the C08 sweep with per-call budgets: bytes allocated and peak live bytes <= 4096*L + 64 MiB, device bytes requested <= 4*L + 64 KiB (validate_crc 2*L), 30 s watchdog, iterators yield <= recordCount items; live-byte cap 2 GiB per worker") }],
+        stages: vec![Stage { timeout_s: 30, ..st("c09.sweep", c08::sweep_budget, (0, 0), 3, "the C08 sweep with per-call budgets: bytes allocated and peak live bytes <= 64*L + 8 MiB (open/XML), 64*L + 192 MiB (iterator steps), L + 1 MiB (blob), device bytes requested <= 4*L + 64 KiB (validate_crc 2*L), 30 s watchdog, iterators yield <= recordCount items; live-byte cap 2 GiB per worker") }],
         extra: None,
         rule: "same enumeration as C08; a counting global allocator and a counting device measure every single call (open, each next(), each blob); a worker that exceeds the live-byte cap exits with a distinguished status and the case is reported; distinct = distinct mutant bytes; non-trivial = all calls within budget",
-        assumptions: &["budgets are deliberately loose (legitimate worst case: one 64 KiB packet of 1-bit values ~ 1800*L)", "watchdog is a timeout, not a termination proof"],
+        assumptions: &["budgets are per kind of call; the iterator constant covers the legitimate worst case of one 64 KiB packet of 1-bit values (2^19 values held twice)", "watchdog is a timeout, not a termination proof"],
         ignore_resource_deaths: false,
         budget_s: (55, 1500),
     },
@@ -345,6 +348,7 @@ pub fn checks() -> Vec<Check> {
             Stage { timeout_s: 60, ..st("c20.t1_lattice", c20::t1_lattice, (0, 0), 3, "XYZ -> E57 -> XYZ through the built binaries: every finite f32 of the mini-float lattice + specials in 3 spellings (shortest, exponent, plain decimal) x 3 column rotations, all 256 colour values per channel") },
             Stage { timeout_s: 60, ..st("c20.t1_shapes", c20::t1_shapes, (2, 2), 3, "line counts {5, 0, 1, cap-1, cap, cap+1} x <=2 deviations over CRLF, missing final newline and 7 line shapes (7+ columns, 5 columns, empty, trailing/leading space, comment)") },
             st("c20.t2_check_crc", c20::t2_check_crc, (1, 1), 3, "e57-check-crc on 6 files + 11 scenes (<=1 layout deviation): intact, every page damaged in payload, in checksum, truncated by a page, by a byte; exit status vs library and independent page check"),
+            st("c20.t2_check_crc_dir", c20::t2_check_crc_dir, (0, 0), 3, "directory mode of e57-check-crc: 3 E57 files (one in a sub directory, upper-case extension) + a non-E57 file, none or exactly one damaged (payload / checksum), 3 file sets"),
             st("c20.t3_unpack", c20::t3_unpack, (1, 1), 3, "e57-extract-xml and e57-unpack on the same corpus, intact and with every single page damaged: output files vs raw_xml / xml() / raw values / blob bytes from the library"),
         ],
         extra: None,
